@@ -11,7 +11,7 @@ EXPLANATION = ('Guard, dataflow and table-agreement rules over ln::onion_utils, 
 	'feeds the same two inputs); the hop is final iff the next HMAC is all-zero, otherwise the shifted packet and the next HMAC are returned; forward payloads are accepted only with a next '
 	'packet and receive payloads only without; the TLV types written by the outbound onion payloads are read by the inbound ones (different types, no macro ties them), unknown even types '
 	'are rejected by the payload decoders; the packet size is a type-level constant (1300 bytes); failures: a hop is blamed only behind its HMAC match, and failure packets are built then '
-	'encrypted in that order. Decides these shapes on all paths; filler arithmetic, per-hop values and hold-time values are not decided.')
+	'encrypted in that order. Also: peeling a dummy hop forwards the peeled layer\'s amount and expiry; both payload builders describe the blinded tail with the BlindedTail\'s own values. Decides these shapes on all paths; filler arithmetic, per-hop values and hold-time values are not decided.')
 ASSUMPTIONS = ['ChaCha20, HMAC-SHA256 and ECDH primitives are correct', 'NodeSigner::ecdh returns the true shared secret']
 
 def _strip(e):
